@@ -19,6 +19,8 @@
 
   Randomness is input: `State.dice` is the list of the generator calls still to come
   (one list of uniforms per call); a step in which some vial is liquid consumes the head.
+  (`run()` restarts the generator at the seed and redraws the shelf coefficients before the
+  loop; the shelf coefficient vector as used is an input, `Params.kShelf`.)
 
   The interaction structure is an abstract input (`nbrs`, `ext`); the topology
   itself is the subject of C09.  Everything numeric is polymorphic in `[Transc α]`.
@@ -134,6 +136,40 @@ def sigmaJump (ii : InitIce) (c : Consts α) (T : α) : α :=
   | .indirect => sigmaIndirect c T
   | .direct => sigmaDirect c T
 
+/-! ### derived constants (constants.py, `calculateDerived`, l. 234-278) -/
+
+/-- the primary constants of the YAML configuration that enter the time loop -/
+structure Primary (α : Type) where
+  T_eq : α
+  b : α
+  rho_l : α
+  height : α
+  length : α
+  width : α
+  cp_s : α
+  solid_fraction : α
+  cp_w : α
+  cp_i : α
+  k_f : α
+  M_s : α
+  Dh : α
+deriving Repr
+
+/-- `calculateDerived`: the straight-line arithmetic producing the constants read by `run()` -/
+def deriveConsts (y : Primary α) : Consts α :=
+  let A := y.length * y.width
+  let V := A * y.height
+  let cp_solution := y.solid_fraction * y.cp_s + (one - y.solid_fraction) * y.cp_w
+  let mass := y.rho_l * V
+  let hl := mass * cp_solution
+  let depression := y.k_f / y.M_s * (y.solid_fraction / (one - y.solid_fraction))
+  let alpha := -mass * y.Dh * (one - y.solid_fraction)
+  let beta_solution := depression * mass * cp_solution
+  { solid_fraction := y.solid_fraction, cp_s := y.cp_s, cp_w := y.cp_w, cp_i := y.cp_i,
+    cp_solution := cp_solution, depression := depression, mass := mass, alpha := alpha,
+    beta_solution := beta_solution, T_eq := y.T_eq, T_eq_l := y.T_eq - depression, hl := hl,
+    b := y.b, V := V }
+
 /-! ### heat flow -/
 
 /-- off-diagonal entry of `H_int = interactionMatrix * k_int * A` -/
@@ -213,7 +249,7 @@ def assignDice : List Bool → List α → List α
 
 /-! ### one step of the batch -/
 
-/-- `t[k]` of `np.arange(0, N*dt, dt)` -/
+/-- `t[k]` of `np.arange(N) * dt` -/
 def timeAt (dt : α) (k : Nat) : α := ofNat' k * dt
 
 def anySolid (s : State α) : Bool := s.vials.any fun v => !(isLiquid v)
@@ -277,9 +313,9 @@ structure Inputs (α : Type) where
 /-- `N_timeSteps = int(np.ceil(t_tot/dt)) + 1` -/
 def nTimeSteps (inp : Inputs α) : Nat := nSteps inp.oc.t_tot inp.p.dt
 
-/-- `t = np.arange(0, N_timeSteps*dt, dt)` -/
+/-- `t = np.arange(N_timeSteps) * dt`: one time per step -/
 def timeVec (N : Nat) (dt : α) : List α :=
-  (List.range (arangeLen (ofNat' N * dt) dt)).map (timeAt dt)
+  (List.range N).map (timeAt dt)
 
 /-- `opcond.cnt`: `none` is `np.inf` -/
 def cntTime (oc : OpCond α) (cnTemp : Option α) : Option α :=
